@@ -26,6 +26,7 @@
 #include "node.h"
 #include "meta.h"
 
+#include "c08_gen.h"
 #include "vf.h"
 
 const char *vf_name = "c08_parse";
@@ -98,329 +99,8 @@ typedef struct {
 	MPT_TYPE(input_parser) next;
 } format;
 
-static const char *const fixed_formats[] = {
-	/* the five ctest invocations and layout::file_format() */
-	"{*} =;!# `", "[*] = ", "[*] = !", "{*} =;!#", "[ ] = #", "{*} =;#! '\"",
-	/* other families / delimiter sets */
-	"{x} =;#", "{x} = #", "|x| = #", "|x| =;#", "(x) :,!", "[ ] =;#", "[ [ = #",
-	"<_> = #", "<_> =;#", "<_>  ;#", "{*}>=;#", "{x}>=;#", "[ ]>= #", "{*}  ;#", "{*}   #", "{*} = ", "{", "{x", "{ "
-};
-#define NFIXED (sizeof(fixed_formats) / sizeof(*fixed_formats))
-
-static void format_make(format *f, vf_rng *r)
-{
-	static const char delim[] = "{}[]()<>|=:;,!#%\"'`\\/@a1 ";
-	static const char types[] = "*x _";
-	uint32_t sel = vf_below(r, 100);
-	memset(f, 0, sizeof(*f));
-	if (sel < 4) {
-		f->null = 1;
-	} else if (sel < 64) {
-		strcpy(f->str, fixed_formats[vf_below(r, NFIXED)]);
-	} else {
-		size_t n = 0;
-		f->str[n++] = delim[vf_below(r, sizeof(delim) - 1)];
-		f->str[n++] = vf_chance(r, 1, 25) ? "q-X0"[vf_below(r, 4)] : types[vf_below(r, 4)];
-		f->str[n++] = vf_chance(r, 1, 4) ? f->str[0] : delim[vf_below(r, sizeof(delim) - 1)];
-		f->str[n++] = vf_chance(r, 3, 4) ? ' ' : delim[vf_below(r, sizeof(delim) - 1)];
-		f->str[n++] = vf_chance(r, 2, 3) ? "=:"[vf_below(r, 2)] : delim[vf_below(r, sizeof(delim) - 1)];
-		f->str[n++] = vf_chance(r, 1, 2) ? "; "[vf_below(r, 2)] : delim[vf_below(r, sizeof(delim) - 1)];
-		for (uint32_t k = vf_below(r, 5); k; k--) {
-			char c = delim[vf_below(r, sizeof(delim) - 2)];
-			/* comment list: sometimes the escape or a delimiter character */
-			f->str[n++] = vf_chance(r, 1, 6) ? f->str[vf_below(r, 6)] : c;
-			if (f->str[n - 1] == ' ') f->str[n - 1] = '#';
-		}
-		if (vf_chance(r, 1, 2)) {
-			f->str[n++] = ' ';
-			for (uint32_t k = vf_below(r, 4); k; k--) {
-				char c = delim[vf_below(r, sizeof(delim) - 2)];
-				f->str[n++] = vf_chance(r, 1, 6) ? f->str[vf_below(r, 6)] : c;
-				if (f->str[n - 1] == ' ') f->str[n - 1] = '"';
-			}
-		}
-		if (vf_chance(r, 1, 10)) n = vf_below(r, (uint32_t) n + 1);
-		f->str[n] = 0;
-	}
-	vf_at("mpt_parse_format");
-	vf_count("mpt_parse_format", 1);
-	f->type = mpt_parse_format(&f->pf, f->null ? 0 : f->str);
-	vf_at("mpt_parse_next_fcn");
-	f->next = mpt_parse_next_fcn(f->type);
-}
-
-/* ------------------------------------------------------- document generator */
 static const char *const vocab[] = { "a", "b", "c", "ab", "x", "y", "name", "n1", "sect", "opt", "k", "zz" };
 #define NVOCAB (sizeof(vocab) / sizeof(*vocab))
-
-static size_t long_len(vf_rng *r)
-{
-	static const size_t big[] = { 254, 255, 256, 257, 258, 300, 511, 512, 513, 1024, 4095, 4096, 4097 };
-	static const size_t huge[] = { 65533, 65534, 65535, 65536, 65537, 65538, 70000 };
-	if (vf_chance(r, 1, 8)) return huge[vf_below(r, sizeof(huge) / sizeof(*huge))];
-	return big[vf_below(r, sizeof(big) / sizeof(*big))];
-}
-static int plain_char(vf_rng *r)
-{
-	static const char set[] = "abcdefghijklmnopqrstuvwxyzABCXYZ0123456789_-+";
-	return set[vf_below(r, sizeof(set) - 1)];
-}
-static int odd_char(vf_rng *r, const format *f)
-{
-	switch (vf_below(r, 12)) {
-	case 0: return 0;
-	case 1: return 0x80 + (int) vf_below(r, 128);
-	case 2: return 1 + (int) vf_below(r, 31);
-	case 3: return '\r';
-	case 4: return '\n';
-	case 5: return '\\';
-	case 6: return "\"'`"[vf_below(r, 3)];
-	case 7: return '.';
-	case 8: return ' ';
-	default: {
-		const uint8_t *p = (const uint8_t *) &f->pf;
-		return p[vf_below(r, sizeof(f->pf))];
-	}
-	}
-}
-static void gen_ws(vf_rng *r, bytes *b)
-{
-	/* between elements */
-	static const char *const ws[] = { "", " ", " ", "\n", "\n", "\n ", "\t", "\r\n", " \n ", "\n\n", "  " };
-	const char *s = ws[vf_below(r, sizeof(ws) / sizeof(*ws))];
-	if (vf_chance(r, 1, 40)) s = vf_chance(r, 1, 2) ? "\v" : "\f";
-	b_add(b, s, strlen(s));
-}
-static void gen_iws(vf_rng *r, bytes *b)
-{
-	/* inside an element */
-	static const char *const ws[] = { "", "", " ", " ", "  ", "\t" };
-	const char *s = ws[vf_below(r, sizeof(ws) / sizeof(*ws))];
-	if (vf_chance(r, 1, 40)) s = "\n";
-	b_add(b, s, strlen(s));
-}
-static int is_delim(const format *f, int c)
-{
-	const uint8_t *p = (const uint8_t *) &f->pf;
-	for (size_t i = 0; i < sizeof(f->pf); i++) if (p[i] == c) return 1;
-	return c == '.';
-}
-/* name the flag set admits (mostly) */
-static void gen_name(vf_rng *r, bytes *b, const format *f, unsigned flags, int *longs)
-{
-	static const char special[] = "_-+/:,@%&*~^";
-	uint32_t sel = vf_below(r, 100);
-	size_t n, i;
-	if (sel < 45) {
-		const char *s = vocab[vf_below(r, NVOCAB)];
-		if (!(flags & 0x2) && isdigit((uint8_t) s[1])) s = "nn";
-		b_add(b, s, strlen(s));
-		return;
-	}
-	if (sel < 50) {
-		/* empty name */
-		if ((flags & 0x10) || vf_chance(r, 1, 6)) return;
-		b_put(b, 'e');
-		return;
-	}
-	if (sel < 52 && *longs < 2) {
-		n = long_len(r);
-		++*longs;
-	}
-	else if (sel < 62) {
-		/* anything */
-		n = (size_t) vf_range(r, 1, 12);
-		for (i = 0; i < n; i++) b_put(b, vf_chance(r, 1, 4) ? odd_char(r, f) : plain_char(r));
-		return;
-	}
-	else n = (size_t) vf_range(r, 1, 10);
-	for (i = 0; i < n; i++) {
-		int c;
-		switch (vf_below(r, 10)) {
-		case 0: c = (flags & (i ? 0x2 : 0x1)) ? '0' + (int) vf_below(r, 10) : 'd'; break;
-		case 1: c = (flags & 0x4) ? special[vf_below(r, sizeof(special) - 1)] : 's'; break;
-		case 2: c = ((flags & 0x8) && i && i + 1 < n && n < 200) ? ' ' : 'w'; break;
-		case 3: c = ((flags & 0x20) && vf_chance(r, 1, 3)) ? 0x80 + (int) vf_below(r, 128) : 'b'; break;
-		default: c = 'a' + (int) vf_below(r, 26);
-		}
-		if (is_delim(f, c)) c = 'x';
-		b_put(b, c);
-	}
-}
-static void gen_value(vf_rng *r, bytes *b, const format *f, int *longs)
-{
-	uint32_t sel = vf_below(r, 100);
-	int q = 0, odd = vf_chance(r, 1, 8);
-	size_t n, i;
-	if (vf_chance(r, 1, 4)) {
-		q = f->pf.esc[vf_below(r, 3)];
-		if (!q && vf_chance(r, 1, 8)) q = '"';
-	}
-	if (q) b_put(b, q);
-	if (sel < 8) n = 0;
-	else if (sel < 10 && *longs < 2) { n = long_len(r); ++*longs; }
-	else n = (size_t) vf_range(r, 1, 24);
-	for (i = 0; i < n; i++) {
-		int c;
-		if (q && vf_chance(r, 1, 12)) { b_put(b, '\\'); b_put(b, q); continue; }
-		if (i && i + 1 < n && vf_chance(r, 1, 8)) c = ' ';
-		else if (odd && vf_chance(r, 1, 6)) c = odd_char(r, f);
-		else if (q && vf_chance(r, 1, 6)) { const uint8_t *p = (const uint8_t *) &f->pf; c = p[vf_below(r, sizeof(f->pf))]; if (!c || c == q) c = ' '; }
-		else c = plain_char(r);
-		if (!q && !odd && is_delim(f, c)) c = 'v';
-		b_put(b, c);
-	}
-	/* closing quote, sometimes missing */
-	if (q && !vf_chance(r, 1, 25)) b_put(b, q);
-}
-static void gen_comment(vf_rng *r, bytes *b, const format *f)
-{
-	int c = f->pf.com[vf_below(r, 4)];
-	if (!c) c = f->pf.com[0];
-	if (!c) return;
-	b_put(b, c);
-	for (int n = vf_range(r, 0, 12); n; n--) b_put(b, vf_chance(r, 1, 6) ? odd_char(r, f) : plain_char(r));
-	if (!vf_chance(r, 1, 30)) b_put(b, '\n');
-}
-typedef struct { unsigned sect, opt; int budget, longs, maxdepth; } genctx;
-
-static void gen_items(vf_rng *r, bytes *b, const format *f, genctx *g, int depth)
-{
-	int n = vf_range(r, 0, depth ? 4 : 7);
-	const MPT_STRUCT(parser_format) *pf = &f->pf;
-	while (n-- > 0 && g->budget > 0) {
-		uint32_t sel = vf_below(r, 100);
-		--g->budget;
-		gen_ws(r, b);
-		if (sel < 55 || (sel < 85 && (depth >= g->maxdepth || f->type == '_'))) {
-			/* option */
-			if (pf->ostart) b_put(b, pf->ostart);
-			gen_name(r, b, f, g->opt, &g->longs);
-			gen_iws(r, b);
-			if (pf->assign) { if (!vf_chance(r, 1, 40)) b_put(b, pf->assign); }
-			else b_put(b, ' ');
-			gen_iws(r, b);
-			gen_value(r, b, f, &g->longs);
-			gen_iws(r, b);
-			if (!pf->oend && vf_chance(r, 1, 10)) { b_put(b, ' '); gen_comment(r, b, f); }
-			if (pf->oend) { if (!vf_chance(r, 1, 40)) b_put(b, pf->oend); }
-			else b_put(b, '\n');
-		} else if (sel < 85) {
-			/* section in the spelling of the family */
-			switch (f->type) {
-			case 'x':
-				b_put(b, pf->sstart);
-				gen_iws(r, b);
-				gen_name(r, b, f, g->sect & ~0x8u, &g->longs);
-				b_put(b, vf_chance(r, 1, 2) ? ' ' : '\n');
-				gen_items(r, b, f, g, depth + 1);
-				gen_ws(r, b);
-				if (pf->send != pf->sstart ? !vf_chance(r, 1, 30) : vf_chance(r, 1, 10)) b_put(b, pf->send);
-				break;
-			case ' ':
-				b_put(b, pf->sstart);
-				gen_iws(r, b);
-				gen_name(r, b, f, g->sect, &g->longs);
-				gen_iws(r, b);
-				if (!vf_chance(r, 1, 30)) b_put(b, pf->send);
-				gen_ws(r, b);
-				gen_items(r, b, f, g, g->maxdepth);
-				break;
-			default:
-				gen_name(r, b, f, g->sect, &g->longs);
-				gen_ws(r, b);
-				b_put(b, pf->sstart);
-				gen_items(r, b, f, g, depth + 1);
-				gen_ws(r, b);
-				if (!vf_chance(r, 1, 30)) b_put(b, pf->send);
-			}
-		} else if (sel < 93) {
-			gen_comment(r, b, f);
-		} else if (sel < 96) {
-			/* data without name */
-			if (!(g->opt & 0x10) && !vf_chance(r, 1, 8)) continue;
-			gen_value(r, b, f, &g->longs);
-			if (pf->oend) b_put(b, pf->oend); else b_put(b, '\n');
-		} else if (sel < 97) {
-			b_put(b, pf->send);
-		} else {
-			b_put(b, '\n');
-		}
-	}
-}
-static void gen_deep(vf_rng *r, bytes *b, const format *f, genctx *g, int depth)
-{
-	const MPT_STRUCT(parser_format) *pf = &f->pf;
-	g->maxdepth = depth + 1;
-	for (int d = 0; d < depth; d++) {
-		switch (f->type) {
-		case 'x': b_put(b, pf->sstart); gen_name(r, b, f, g->sect & ~0x8u, &g->longs); b_put(b, ' '); break;
-		case ' ': b_put(b, pf->sstart); gen_name(r, b, f, g->sect, &g->longs); b_put(b, pf->send); break;
-		default:  gen_name(r, b, f, g->sect, &g->longs); b_put(b, pf->sstart);
-		}
-		if (vf_chance(r, 1, 8)) { g->budget = 3; gen_items(r, b, f, g, depth); }
-	}
-	g->budget = 4;
-	gen_items(r, b, f, g, depth);
-	for (int d = vf_chance(r, 1, 6) ? vf_range(r, 0, depth + 2) : depth; d > 0; d--) {
-		gen_ws(r, b);
-		b_put(b, pf->send);
-	}
-}
-static void gen_soup(vf_rng *r, bytes *b, const format *f)
-{
-	int n = vf_range(r, 0, 200);
-	while (n-- > 0) {
-		if (vf_chance(r, 1, 3)) b_put(b, odd_char(r, f));
-		else if (vf_chance(r, 1, 6)) b_put(b, (int) vf_below(r, 256));
-		else b_put(b, plain_char(r));
-	}
-}
-static void mutate(vf_rng *r, bytes *b, const format *f)
-{
-	int k = vf_range(r, 1, 6);
-	while (k-- > 0) {
-		size_t pos = b->n ? vf_below(r, (uint32_t) b->n) : 0;
-		switch (vf_below(r, 6)) {
-		case 0: /* delete a range */
-			if (b->n) {
-				size_t len = 1 + vf_below(r, 4);
-				if (len > b->n - pos) len = b->n - pos;
-				memmove(b->d + pos, b->d + pos + len, b->n - pos - len);
-				b->n -= len;
-			}
-			break;
-		case 1: /* duplicate a range */
-			if (b->n) {
-				size_t len = 1 + vf_below(r, 12);
-				if (len > b->n - pos) len = b->n - pos;
-				b_need(b, len);
-				memmove(b->d + pos + len, b->d + pos, b->n - pos);
-				b->n += len;
-			}
-			break;
-		case 2: /* insert */
-			b_need(b, 1);
-			memmove(b->d + pos + 1, b->d + pos, b->n - pos);
-			b->d[pos] = (uint8_t) odd_char(r, f);
-			b->n++;
-			break;
-		case 3: /* overwrite */
-			if (b->n) b->d[pos] = (uint8_t) (vf_chance(r, 1, 2) ? odd_char(r, f) : (int) vf_below(r, 256));
-			break;
-		case 4: /* truncate */
-			if (vf_chance(r, 1, 3)) b->n = pos;
-			break;
-		default: /* LF -> CR LF */
-			if (b->n && b->d[pos] == '\n') {
-				b_need(b, 1);
-				memmove(b->d + pos + 1, b->d + pos, b->n - pos);
-				b->d[pos] = '\r';
-				b->n++;
-			}
-		}
-	}
-}
 
 /* ------------------------------------------------------ event nesting model */
 typedef struct {
@@ -899,7 +579,13 @@ static void drive_node(const testcase *tc, vf_rng *r)
 		size_t err_at = pick_err(r, tc->doc.n);
 		size_t nodes;
 		input_init(&in, &tc->doc, err_at);
-		ctx_setup(&ctx, &in, tc, r);
+		if (round && vf_chance(r, 1, 2)) {
+			/* context of the round before used again, like a long-lived mpt::parser does */
+			ctx.src.arg = &in;
+			ctx.src.line = 0;
+			vf_count("state:context-reused", 1);
+		}
+		else ctx_setup(&ctx, &in, tc, r);
 		snapshot(&before, &root);
 		vf_fp_u64(err_at);
 		vf_log("B: mpt_parse_node %s err_at=%zd mode=%d round=%d existing=%zu", tc->desc, (ssize_t) err_at, mode, round, walk(root.children, 0));
@@ -937,67 +623,32 @@ static void drive_node(const testcase *tc, vf_rng *r)
 }
 
 /* ------------------------------------------------------------------ cases */
-static void flags_string(char *dst, unsigned sect, unsigned opt)
-{
-	static const struct { char c; unsigned f; } map[] = {
-		{ 'f', 0x1 }, { 'c', 0x2 }, { 's', 0x4 }, { 'w', 0x8 }, { 'e', 0x10 }, { 'b', 0x20 }
-	};
-	size_t n = 0;
-	for (int i = 0; i < 6; i++) {
-		if (sect & map[i].f) dst[n++] = (char) toupper(map[i].c);
-		if (opt & map[i].f) dst[n++] = map[i].c;
-	}
-	dst[n] = 0;
-}
 uint64_t vf_cases(void) { return vf_thorough ? 3000000 : 240000; }
 
 void vf_case(uint64_t idx, vf_rng *r)
 {
 	testcase tc;
-	char fl[16], hx[120];
-	int longs = 0;
-	genctx g;
+	c08_case c;
+	const char *fl;
+	char hx[120];
+	int longs;
 	uint32_t kind;
 
 	memset(&tc, 0, sizeof(tc));
-	format_make(&tc.f, r);
-
-	/* name flags: every one of the 64 x 64 sets can occur; through mpt_parse_accept */
-	switch (vf_below(r, 4)) {
-	case 0: tc.sect = tc.opt = 0xff; break;
-	case 1: tc.sect = 0x3f & (uint16_t) vf_u64(r); tc.opt = 0x3f & (uint16_t) vf_u64(r); break;
-	case 2: tc.sect = 0x10 | (0x3f & (uint16_t) vf_u64(r)); tc.opt = 0x10 | (0x3f & (uint16_t) vf_u64(r)); break;
-	default: tc.sect = 0x3f; tc.opt = 0x3f;
-	}
-	if (tc.sect != 0xff) {
-		MPT_STRUCT(parser_allow) al = { 0, 0 };
-		int rr;
-		flags_string(fl, tc.sect, tc.opt);
-		vf_at("mpt_parse_accept");
-		vf_count("mpt_parse_accept", 1);
-		rr = mpt_parse_accept(&al, fl);
-		if (fl[0]) {
-			VF_CHECK(rr == (int) strlen(fl) && al.sect == tc.sect && al.opt == tc.opt, "model:parse_accept:flags",
-			         "mpt_parse_accept(\"%s\") = %d sets sect=%x opt=%x, expected %x / %x", fl, rr, al.sect, al.opt, tc.sect, tc.opt);
-		}
-	} else {
-		strcpy(fl, "(all)");
-	}
-
-	/* document */
-	kind = vf_below(r, 100);
-	g.sect = tc.sect; g.opt = tc.opt;
-	g.budget = vf_chance(r, 1, 20) ? 200 : 40;
-	g.longs = 0;
-	if (kind < 85) {
-		g.maxdepth = vf_range(r, 0, 5);
-		if (vf_chance(r, 1, 30)) gen_deep(r, &tc.doc, &tc.f, &g, vf_range(r, 6, 60));
-		else gen_items(r, &tc.doc, &tc.f, &g, 0);
-		if (kind >= 45) mutate(r, &tc.doc, &tc.f);
-	} else {
-		gen_soup(r, &tc.doc, &tc.f);
-	}
-	longs = g.longs;
+	c08_case_make(&c, r);
+	memcpy(tc.f.str, c.fmt, sizeof(tc.f.str));
+	tc.f.null = c.fmt_null;
+	tc.f.type = c.type;
+	memcpy(&tc.f.pf, c.pf, sizeof(tc.f.pf));
+	vf_at("mpt_parse_next_fcn");
+	tc.f.next = mpt_parse_next_fcn(tc.f.type);
+	tc.sect = c.sect;
+	tc.opt = c.opt;
+	fl = c.flags;
+	tc.doc.d = c.doc;
+	tc.doc.n = c.len;
+	kind = c.kind == 0 ? 0 : c.kind == 1 ? 45 : 85;
+	longs = c.longs;
 	tc.pristine = kind < 45;
 	if (longs) vf_count("doc:with-long-token", 1);
 	vf_count(kind < 45 ? "doc:grammar" : kind < 85 ? "doc:grammar+mutation" : "doc:random-bytes", 1);
@@ -1029,5 +680,5 @@ void vf_case(uint64_t idx, vf_rng *r)
 	if (!tc.f.next || vf_chance(r, 3, 5)) drive_node(&tc, r);
 
 	vf_sample("%s", tc.desc);
-	b_free(&tc.doc);
+	c08_case_free(&c);
 }
